@@ -62,7 +62,34 @@ CMP_OPTS = {
     'merr': {'match_err': 'warn'},
     'iout': {'ignore_out': True},
     'ierr': {'ignore_err': True, 'match_out': 'found'},
+    # with a cross-check command (-c): its own golden run and options
+    'cc': {'cc': True},
+    'ccio': {'cc': True, 'ignore_output': True},
+    'ccmo': {'cc': True, 'match_out_cc': 'sat', 'ignore_err': True},
+    'ccig': {'cc': True, 'ignore_output_cc': True, 'match_out': 'bug'},
 }
+GOLDEN_CC = (0, 'unsat\n', '')
+
+
+def outcome_cc(toks):
+    """Behaviour of the cross-check command: like its golden run, or a
+    different stdout / a different exit code - a fixed function of the
+    token sequence."""
+    import zlib
+    k = zlib.crc32(('cc' + toks).encode()) % 5
+    if k == 0:
+        return (0, 'sat\n', '')
+    if k == 1:
+        return (3, 'unsat\n', '')
+    return GOLDEN_CC
+
+
+def documented_accept_cc(out, opts):
+    from vlib.ref import spec_checker as S_
+    ig = opts.get('ignore_output_cc', False)
+    return S_.accept(GOLDEN_CC[0], GOLDEN_CC[1], GOLDEN_CC[2], out[0], out[1],
+                     out[2], ig, ig, opts.get('match_out_cc'),
+                     opts.get('match_err_cc'))
 
 
 def outcome(verdict, toks):
@@ -83,8 +110,8 @@ def outcome(verdict, toks):
 
 def documented_accept(out, opts):
     from vlib.ref import spec_checker as S_
-    io = opts.get('ignore_out', False)
-    ie = opts.get('ignore_err', False)
+    io = opts.get('ignore_out', False) or opts.get('ignore_output', False)
+    ie = opts.get('ignore_err', False) or opts.get('ignore_output', False)
     return S_.accept(GOLDEN[0], GOLDEN[1], GOLDEN[2], out[0], out[1], out[2],
                      io, ie, opts.get('match_out'), opts.get('match_err'))
 
@@ -128,8 +155,22 @@ def one_run(vec, strategy, jobs, script, mutset, fmt, oracle_kind, V, S,
         ns.ignore_err = False
         ns.match_out = None
         ns.match_err = None
+        ns.ignore_output_cc = False
+        ns.match_out_cc = None
+        ns.match_err_cc = None
+        ns.timeout_cc = None
+        use_cc = CMP_OPTS[cmp].get('cc', False)
         for k_, v_ in CMP_OPTS[cmp].items():
-            setattr(ns, k_, v_)
+            if k_ != 'cc':
+                setattr(ns, k_, v_)
+        if use_cc:
+            # a second executable with the same base name in another directory
+            os.mkdir(os.path.join(work, 'ref'))
+            cmd_cc = os.path.join(work, 'ref', 'solver')
+            with open(cmd_cc, 'w') as f:
+                f.write('#!/bin/sh\n# CC\n')
+            os.chmod(cmd_cc, 0o755)
+            ns.cmd_cc = [cmd_cc, '--ref']
         orig = toks_of_text(text)
         if oracle_kind.startswith('hash'):
             oracle = HashClassOracle(d, V, always_accept=[orig],
@@ -138,15 +179,34 @@ def one_run(vec, strategy, jobs, script, mutset, fmt, oracle_kind, V, S,
             oracle = Oracle(d, V, always_accept=[orig])
         ran = []                    # (tokens, verdict) of every execution
 
+        state = {'main_ok': {}}
+        wrong = []
+
         def execute(xcmd, filename, timeout):
-            if list(xcmd[1:]) != ['--opt'] or not filename.endswith('.smt2'):
-                raise AssertionError(f'command line {xcmd!r} {filename!r}')
+            if not filename.endswith('.smt2'):
+                raise AssertionError(f'file name {filename!r}')
+            # which program is really started: look into the executable
+            role = 'CC' if '# CC' in open(xcmd[0]).read() else 'MAIN'
             t = toks_of_text(open(filename).read())
-            v = oracle.verdict(t)
-            o = outcome(v, t)
-            # accepted by the documented comparison rule under the configured
-            # options (not merely by the oracle)
-            ran.append((t, documented_accept(o, CMP_OPTS[cmp])))
+            if list(xcmd[1:]) == ['--opt']:
+                if role != 'MAIN':
+                    wrong.append('the command under test was started with '
+                                 'the cross-check executable')
+                v = oracle.verdict(t)
+                o = outcome(v, t)
+                ok = documented_accept(o, CMP_OPTS[cmp])
+                state['main_ok'][t] = ok
+                if not use_cc:
+                    ran.append((t, ok))
+                return checker.RunInfo(o[0], o[1], o[2], 0.01)
+            if list(xcmd[1:]) != ['--ref']:
+                raise AssertionError(f'command line {xcmd!r}')
+            if role != 'CC':
+                wrong.append('the cross-check command was started with the '
+                             'executable of the command under test')
+            o = outcome_cc(t) if t != orig else GOLDEN_CC
+            ran.append((t, state['main_ok'].get(t, False)
+                        and documented_accept_cc(o, CMP_OPTS[cmp])))
             return checker.RunInfo(o[0], o[1], o[2], 0.01)
 
         written = []
@@ -179,6 +239,8 @@ def one_run(vec, strategy, jobs, script, mutset, fmt, oracle_kind, V, S,
             return 'skip', d.read
         except SystemExit as e:
             return f'ddsmt_main exited with {e.code!r}', d.read
+        if wrong:
+            return wrong[0], d.read
         accepted = {t for t, v in ran if v}
         after = open(infile, 'rb').read()
         if after != before:
@@ -197,7 +259,7 @@ def one_run(vec, strategy, jobs, script, mutset, fmt, oracle_kind, V, S,
             if final not in accepted:
                 return f'output file at exit {final!r} not accepted', d.read
         extra = sorted(set(os.listdir(work))
-                       - {'input.smt2', 'output.smt2', 'solver'})
+                       - {'input.smt2', 'output.smt2', 'solver', 'ref'})
         if extra:
             return f'unexpected files written: {extra}', d.read
         return None, d.read
@@ -276,6 +338,11 @@ CONFIGS = [
     ('hierarchical', 1, 'd', 'mix', 'pretty', 'first', 'mout'),
     ('hierarchical', 1, 'a', 'core', 'default', 'hash0', 'iout'),
     ('ddmin', 1, 'a', 'core', 'wrap', 'hash0', 'ierr'),
+    ('hybrid', 1, 'a', 'core', 'default', 'hash0', 'cc'),
+    ('hierarchical', 1, 'a', 'core', 'default', 'hash1', 'ccio'),
+    ('ddmin', 2, 'c', 'erase', 'pretty', 'hash0', 'ccmo'),
+    ('hierarchical', 2, 'b', 'mix', 'default', 'hash0', 'ccig'),
+    ('ddmin', 1, 'a', 'core', 'default', 'first', 'ccio'),
 ]
 
 
